@@ -69,12 +69,12 @@ class Monitors:
             for cls, nm in ((LT.LibcstTransformerPipeline, "libcst"), (RT.RegexTransformerPipeline, "regex"), (XT.XMLTransformerPipeline, "xml")):
                 orig_ap = cls.apply
                 def make(orig, nm):
-                    def apply(self_, context, file_context, results):
+                    def apply(self_, context, file_context, results, *a_, **kw_):      # wrappers pass unknown extra arguments through: an added parameter must not blind the monitor
                         tr.count("pipe_" + nm)
                         p = file_context.file_path
                         try: before = p.read_bytes()
                         except OSError: before = None
-                        cs = orig(self_, context, file_context, results)
+                        cs = orig(self_, context, file_context, results, *a_, **kw_)
                         try: after = p.read_bytes()
                         except OSError: after = None
                         tr.emit("pipe", pipeline=nm, path=str(p), before=None if before is None else b64(before), after=None if after is None else b64(after),
@@ -87,7 +87,7 @@ class Monitors:
         if cfg.get("file", True):
             orig_pf = BC.BaseCodemod._process_file
             delays = cfg.get("delays"); faults = cfg.get("faults") or []
-            def _process_file(self_, filename, context, results, rules):
+            def _process_file(self_, filename, *a_, **kw_):
                 tr.count("process_file")
                 with tr.lock:
                     mon.inflight += 1; cur = mon.inflight
@@ -103,7 +103,7 @@ class Monitors:
                             except OSError: pass
                             tr.emit("fault", kind="vanish", path=str(filename), cm=self_.id)
                     mon.tl.file = filename.name
-                    return orig_pf(self_, filename, context, results, rules)
+                    return orig_pf(self_, filename, *a_, **kw_)
                 finally:
                     mon.tl.file = None
                     with tr.lock: mon.inflight -= 1
@@ -150,7 +150,7 @@ class Monitors:
             self._patch(LT.LibcstResultTransformer, "transform", classmethod(transform_fp(transform)))
         if cfg.get("cm", True):
             orig_apply = BC.BaseCodemod._apply
-            def _apply(self_, context, rules):
+            def _apply(self_, context, *a_, **kw_):
                 tr.count("_apply")
                 mon.current_codemod = self_.id
                 for f in (cfg.get("faults") or []):
@@ -161,7 +161,7 @@ class Monitors:
                         except OSError: pass
                         tr.emit("fault", kind="vanish_before_detector", path=str(mon.target / f["file"]), cm=self_.id)
                 tr.emit("cm_begin", cm=self_.id, snap=snapshot(mon.target) if cfg.get("snap", True) else None)
-                return orig_apply(self_, context, rules)
+                return orig_apply(self_, context, *a_, **kw_)
             self._patch(BC.BaseCodemod, "_apply", _apply)
             orig_log = CTX.CodemodExecutionContext.log_changes
             def log_changes(self_, codemod_id):
@@ -174,12 +174,12 @@ class Monitors:
         if cfg.get("dep", True):
             from codemodder.dependency_management import dependency_manager as DM
             orig_w = DM.DependencyManager.write
-            def write(self_, dependencies, dry_run=False):
+            def write(self_, dependencies, dry_run=False, *a_, **kw_):
                 tr.count("dep_write")
                 p = Path(self_.dependencies_store.file)
                 try: before = p.read_bytes()
                 except OSError: before = None
-                cs = orig_w(self_, dependencies, dry_run)
+                cs = orig_w(self_, dependencies, dry_run, *a_, **kw_)
                 try: after = p.read_bytes()
                 except OSError: after = None
                 tr.emit("dep_write", store=self_.dependencies_store.type.value, path=str(p), before=None if before is None else b64(before), after=None if after is None else b64(after),
